@@ -13,6 +13,8 @@ import FordModel.Scope
 import FordModel.ScopeSpec
 import FordModel.Lemmas.Scope
 import FordModel.Lemmas.ScopeUse
+import FordModel.ScopeBlock
+import FordModel.Lemmas.ScopeBlock
 import FordModel.Generated.C07
 namespace Ford.C07
 open Ford Ford.Scope
@@ -254,6 +256,83 @@ theorem proto_before_absint_witness :
 example : treeOK [] [] wSibling = true ∧ treeOK [] [] wShadow = true := by decide
 example : (match wShadow with | .mk _ _ _ _ _ _ ks => quietKids ks) = true := by decide
 
+/-! ### BLOCK constructs: declarations local to a child scope are invisible
+
+  FORD has no object for a BLOCK; its parser files a statement met inside a BLOCK in the lists of
+  the enclosing unit unless the dispatcher branch is guarded by `blocklevel == 0`
+  (`flatten reg`, FordModel/ScopeBlock.lean).  Specification: a reference outside a BLOCK denotes
+  what it denotes in the program without its BLOCK constructs (`specBScope`). -/
+
+/-- **block_local_invisible.**  When the dispatcher files neither USE statements nor derived types
+    nor interface blocks of a BLOCK in the enclosing unit, then - for every variant, any nesting of
+    procedures and of BLOCKs, any reuse of names, any host tables - every reference slot holds
+    exactly what it holds in the program without its BLOCK constructs, and no block-local
+    declaration becomes an entity of the enclosing unit. -/
+theorem block_local_invisible (v : Variant) (env : ModEnv) (hostP a t : Table) (reg : BlockReg) (s : BScope)
+    (hu : reg.use = false) (ht : reg.ty = false) (hi : reg.ifc = false) :
+    corr v env hostP a t (flatten reg s) = corr v env hostP a t (eraseBlocks s) ∧ registered reg s = [] := by
+  rw [flatten_none reg hu ht hi s]
+  exact ⟨rfl, registered_none reg ht hi s⟩
+
+/-- **resolution_correct_blocks.**  Variant `repaired` with every dispatcher branch guarded: all
+    slots of a unit with BLOCK constructs (any depth) = the specification, in which a BLOCK is a
+    child scope whose frame is on no reference's chain. -/
+theorem resolution_correct_blocks (env : ModEnv) (s : BScope) (ok : treeOK env [] (eraseBlocks s) = true) :
+    corrUnit repaired env (flatten BlockReg.none s) = specBScope env [] s := by
+  rw [flatten_none BlockReg.none rfl rfl rfl s]
+  exact resolution_correct env (eraseBlocks s) ok
+
+/-- **block_local_invisible_partial** (code as found: the USE branch has no guard, whatever `use`
+    is): as long as no BLOCK of the tree contains a USE statement, BLOCK constructs are
+    unobservable - block-local derived types, interfaces and abstract interfaces shadow nothing and
+    resolve nothing outside the BLOCK. -/
+theorem block_local_invisible_partial (v : Variant) (env : ModEnv) (hostP a t : Table) (use : Bool) (s : BScope)
+    (h : noBlockUse s = true) :
+    corr v env hostP a t (flatten ⟨use, false, false⟩ s) = corr v env hostP a t (eraseBlocks s) ∧
+      registered ⟨use, false, false⟩ s = [] := by
+  rw [flatten_noBlockUse ⟨use, false, false⟩ rfl rfl s h]
+  exact ⟨rfl, registered_none ⟨use, false, false⟩ rfl rfl s⟩
+
+/-- module m0 declares type ta (1).  Module m1 contains subroutine pa with `type(ta) :: v` (slot 0),
+    a BLOCK with `use m0`, and an internal subroutine pb with `type(ta) :: w` (slot 1). -/
+def wBlockUse : List (Bool × BScope) :=
+  [(true, .mk ['m','0'] 0 false [] [⟨.ty, ['t','a'], 1⟩] [] .nil .nil),
+   (true, .mk ['m','1'] 2 false [] [] [] .nil
+      (.cons (.mk ['p','a'] 3 false [] [] [⟨0, .ty, .late, ['t','a']⟩]
+        (.cons (.mk [⟨['m','0'], false, []⟩] [] .nil) .nil)
+        (.cons (.mk ['p','b'] 4 false [] [] [⟨1, .ty, .late, ['T','a']⟩] .nil .nil) .nil)) .nil))]
+
+/-- **block_use_leak_witness**: the code as found links both references to m0's type although `ta`
+    is use-associated inside the BLOCK only (Fortran: no visible declaration => text); with the USE
+    branch guarded the model equals the specification. -/
+theorem block_use_leak_witness :
+    (corrBProject repaired BlockReg.asFound wBlockUse).map (·.2) = [some 1, some 1] ∧
+      (specBProject wBlockUse).map (·.2) = [none, none] ∧
+      (corrBProject repaired BlockReg.none wBlockUse).map (·.2) = [none, none] := by decide
+
+/-- module m1 declares type ta (1) and contains subroutine pa with `type(ta) :: x` (slot 0),
+    `type(tb) :: y` (slot 2), a BLOCK declaring its own types ta (5) and - in a nested BLOCK - tb (6),
+    and an internal subroutine pb with `type(ta) :: w` (slot 1). -/
+def wBlockType : List (Bool × BScope) :=
+  [(true, .mk ['m','1'] 2 false [] [⟨.ty, ['t','a'], 1⟩] [] .nil
+      (.cons (.mk ['p','a'] 3 false [] [] [⟨0, .ty, .late, ['t','a']⟩, ⟨2, .ty, .late, ['t','b']⟩]
+        (.cons (.mk [] [⟨.ty, ['T','A'], 5⟩] (.cons (.mk [] [⟨.ty, ['t','b'], 6⟩] .nil) .nil)) .nil)
+        (.cons (.mk ['p','b'] 4 false [] [] [⟨1, .ty, .late, ['t','a']⟩] .nil .nil) .nil)) .nil))]
+
+/-- **block_type_leak_witness**: the guard of the derived-type branch is load-bearing - a dispatcher
+    that files block-local type definitions in the enclosing procedure (`ty := true`) lets the BLOCK's
+    `ta` shadow the module's in the procedure and in its internal procedure, and links `tb`, which
+    has no visible declaration; the guarded dispatcher gives the specification. -/
+theorem block_type_leak_witness :
+    (corrBProject repaired ⟨false, true, false⟩ wBlockType).map (·.2) = [some 5, some 5, some 6] ∧
+      (wBlockType.flatMap fun x => registered ⟨false, true, false⟩ x.2) = [5, 6] ∧
+      (specBProject wBlockType).map (·.2) = [some 1, some 1, none] ∧
+      (corrBProject repaired BlockReg.asFound wBlockType).map (·.2) = [some 1, some 1, none] := by decide
+
+/-- non-vacuity of `noBlockUse`: the second witness has BLOCKs (nested) but no USE in them; the first has -/
+example : (wBlockType.all fun x => noBlockUse x.2) = true ∧ (wBlockUse.all fun x => noBlockUse x.2) = false := by
+  decide
+
 /-! ### tie to the source: structure of `FortranCodeUnit.correlate` (generated) -/
 
 /-- the recursion visits functions, then subroutines, then (after the nested units)
@@ -292,5 +371,34 @@ theorem used_objects_generated :
       Ford.C07Gen.useWithoutList =
         ("len(use_specs.strip()) == 0", "(self.pub_procs, self.pub_absints, self.pub_types, self.pub_vars)") := by
   decide
+
+/-- the statement dispatcher `FortranContainer.__init__` (regenerated from the source): `blocklevel`
+    is counted up by the BLOCK branch and down by the END branch, and the branches of derived-type
+    definitions, interface blocks, enumerations, variable declarations and attribute statements are
+    switched off inside a BLOCK (`blocklevel == 0` in their tests) - so the registration behaviour
+    of the working tree files no block-local declaration in the enclosing unit. -/
+theorem block_guards_generated :
+    Ford.C07Gen.blockGuards.lookup "TYPE_RE" = some true ∧
+      Ford.C07Gen.blockGuards.lookup "INTERFACE_RE" = some true ∧
+      Ford.C07Gen.blockGuards.lookup "ENUM_RE" = some true ∧
+      Ford.C07Gen.blockGuards.lookup "VARIABLE_RE" = some true ∧
+      Ford.C07Gen.blockGuards.lookup "ATTRIB_RE" = some true ∧
+      (Ford.C07Gen.blockGuards.lookup "USE_RE").isSome = true ∧
+      Ford.C07Gen.blockCounter = [("END_RE", "blocklevel -= 1"), ("BLOCK_RE", "blocklevel += 1")] ∧
+      (regOfTable Ford.C07Gen.blockGuards Ford.C07Gen.useBranchBlockAware).ty = false ∧
+      (regOfTable Ford.C07Gen.blockGuards Ford.C07Gen.useBranchBlockAware).ifc = false := by decide
+
+/-- **blocks_invisible_generated.**  For the dispatcher of the working tree: a program whose BLOCK
+    constructs contain no USE statement is parsed into the object tree of the program without its
+    BLOCKs (hence resolves every reference alike, in every variant); if the tree's USE branch is
+    switched off inside BLOCKs as well, this holds for every program. -/
+theorem blocks_invisible_generated (s : BScope) :
+    (noBlockUse s = true →
+      flatten (regOfTable Ford.C07Gen.blockGuards Ford.C07Gen.useBranchBlockAware) s = eraseBlocks s) ∧
+    ((regOfTable Ford.C07Gen.blockGuards Ford.C07Gen.useBranchBlockAware).use = false →
+      flatten (regOfTable Ford.C07Gen.blockGuards Ford.C07Gen.useBranchBlockAware) s = eraseBlocks s) := by
+  have ht : (regOfTable Ford.C07Gen.blockGuards Ford.C07Gen.useBranchBlockAware).ty = false := by decide
+  have hi : (regOfTable Ford.C07Gen.blockGuards Ford.C07Gen.useBranchBlockAware).ifc = false := by decide
+  exact ⟨fun h => flatten_noBlockUse _ ht hi s h, fun hu => flatten_none _ hu ht hi s⟩
 
 end Ford.C07
